@@ -170,7 +170,7 @@ CLAIMED = {
   "implementation only (independent Python encoder); keys are abstract. Found and fixed D21 ([A;N] ContainsOption) and D22 "
   "(MaybeSigner<false>/MaybeMut<false> erased the inner requirement)."),
  "C15": (
-  "12 Coq theorems (coq/Properties/C15.v, axiom-free) over an executable model of BorshAccount<T> abstract in the value type's "
+  "13 Coq theorems (coq/Properties/C15.v, axiom-free) over an executable model of BorshAccount<T> abstract in the value type's "
   "borsh (de)serializer: for every value type with an exact-consumption round trip, every account state and every instruction "
   "history, the value an instruction leaves is what the next instruction decodes and what the client deserializer returns; "
   "data_len = discriminant size + serialized size after every write-back; read-only, foreign-owned and closed accounts are never "
